@@ -210,7 +210,7 @@ PROPS = {
         "kind": "c17",
         "module": "Props.C17",
         "namespace": "Jl.C17",
-        "extra_theorem_files": [("Proofs.NoPanic", "Jl.NoPanic")],
+        "extra_theorem_files": [("Proofs.NoPanic", "Jl.NoPanic"), ("Proofs.MapTo", "Jl.MapTo")],
         "rule": ("probes under recover() on three rows (empty, parsed from JSON with nulls / nested rows / arrays / look-alike strings, built "
                  "through the API with every raw type incl. a struct and a typed cell): all 16 typed getters x 14 keys (present, absent, empty, "
                  "null, nested, unconvertible); every positional operation x indexes -1, 0, 1, 5, 100, MinInt64, MaxInt64; GetAtPath / "
